@@ -1338,7 +1338,39 @@ class Engine:
         raise Unsupported('unpacking a %s' % (v.ty,))
 
     def s_Return(self, s, fr):
-        raise _Return(self.eval(s.value, fr) if s.value is not None else VNONE)
+        v = self.eval(s.value, fr) if s.value is not None else VNONE
+        self.stmt_checkpoint(s, fr, 'return')
+        raise _Return(v)
+
+    def stmt_checkpoint(self, s, fr, kind):
+        """contract clauses anchored at the k-th `return` / `raise` statement of the unit's own body (source order)"""
+        c = self.contract
+        if c is None or not c.extra.get('checkpoints') or self.unit_func is None or getattr(fr, 'func', None) is not self.unit_func:
+            return
+        if not any(k.startswith(kind + '#') for k in c.extra['checkpoints']):
+            return
+        cache = self.__dict__.setdefault('_stmt_ord', {})
+        key = (id(self.unit_func.node), kind)
+        if key not in cache:
+            nodes = []
+            stack = list(reversed(self.unit_func.node.body))
+            while stack:
+                n = stack.pop()
+                if isinstance(n, (ast.FunctionDef, ast.AsyncFunctionDef, ast.Lambda, ast.ClassDef)):
+                    continue
+                if isinstance(n, ast.Return if kind == 'return' else ast.Raise):
+                    nodes.append(n)
+                stack.extend(reversed(list(ast.iter_child_nodes(n))))
+            nodes.sort(key=lambda n: (n.lineno, n.col_offset))
+            cache[key] = {id(n): i + 1 for i, n in enumerate(nodes)}
+        k = cache[key].get(id(s))
+        if k is not None:
+            saved = getattr(self, 'cur_frame', None)
+            self.cur_frame = fr
+            try:
+                self.B.checkpoint(self, '%s#%d' % (kind, k))
+            finally:
+                self.cur_frame = saved
 
     def s_If(self, s, fr):
         c = self.truth(self.eval(s.test, fr))
@@ -1353,6 +1385,7 @@ class Engine:
             raise PyRaise('AssertionError', msg='assert')
 
     def s_Raise(self, s, fr):
+        self.stmt_checkpoint(s, fr, 'raise')
         if s.exc is None:
             if self.cur_exc is None:
                 raise Unsupported('bare raise outside handler')
